@@ -183,6 +183,13 @@ def run_exact(op, pid, case):
     returned = 0
     for I, out in vc.explore(body, contracts=ctr, max_paths=op.MAX_PATHS):
         if isinstance(out, vc.Outcome) and out.kind == 'unsupported':
+            flagged = [ob for ob in I.obls if ob.name == 'display-value-feeds-state']
+            if flagged:
+                I.obls = flagged
+                for r in vc.discharge(I, pre, cname, op.TIMEOUT):
+                    r['independent'] = True
+                    res.append(r)
+                continue
             res.append(vc.unsupported_result(f'{pre}unsupported', cname, out.note))
             continue
         if isinstance(out, vc.Outcome) and out.kind == 'return':
@@ -400,7 +407,35 @@ def _parse_q(I, quantity):
         v, u = quantity.split(' ')
         from pyvc.strings import parse_float_text
         return parse_float_text(v), u
+    # a quantity built from a *displayed* value (rounded to a display precision / rescaled to a human-readable unit)
+    # must never drive a state-changing operation: the amounts would depend on the display precision
+    def displayish(x):
+        if isinstance(x, OpaqueHole) and 'alternative' in str(x.what):
+            return True
+        if isinstance(x, NumHole) and is_sym(x.value) and any(str(c).startswith(('hr!', 'sf!', 'rnd!', 'rnd('))
+                                                                for c in _consts(x.value)):
+            return True
+        return False
+    parts = quantity.parts if isinstance(quantity, SegStr) else ([quantity.a, quantity.b] if isinstance(quantity, IteV) else [])
+    flat = []
+    for p_ in parts:
+        flat += p_.parts if isinstance(p_, SegStr) else [p_]
+    if any(displayish(x) for x in flat):
+        I.oblige('display-value-feeds-state', False, 'property',
+                 note='a quantity rounded/rescaled for display is handed to a state-changing container operation')
     raise Unsupported(f"quantity {quantity!r} for a modular container call")
+
+
+def _consts(term):
+    from pyvc.loops import consts_of
+    out = list(consts_of(term))
+    stack = [term]
+    while stack:
+        t = stack.pop()
+        if z3.is_app(t) and t.decl().name() == 'rnd':
+            out.append(z3.Const('rnd(', RS))
+        stack.extend(t.children())
+    return out
 
 
 def _dict_amounts(c):
@@ -505,3 +540,191 @@ def exact_contracts():
     c['Container._transfer'] = mod_transfer
     c['Container.__init__'] = mod_init
     return c
+
+
+# ================================================================================================ create_solution (C05)
+class CreateSolutionOp(clib.Op):
+    """Container.create_solution(solute(s), solvent, name, two of concentration / quantity / total_quantity).
+    case = (kinds of the solutes, given, (num, den), quantity unit, total unit, solvent form)"""
+    FN = 'Container.create_solution'
+    PROPS_OF = {'display-value-feeds-state': ['C05', 'C19', 'C03'], 'only-named': ['C05'], 'positive': ['C05', 'C03'], 'conc': ['C05'], 'qty': ['C05'], 'total': ['C05'],
+                'refuse': ['C05', 'C03'], 'accept': ['C05', 'C03'], 'aliquot': ['C05'], 'nothing-lost': ['C05'],
+                'nonneg': ['C03'], 'vol': ['C10'], 'frame': ['C04'], 'fresh': ['C04'], 'safe': ['C03', 'C05']}
+    TIMEOUT = 20000
+    MAX_PATHS = 600
+    MODULAR_CALLEES = True
+
+    def cases(self, tier):
+        out = []
+        givens = [('c', 't'), ('c', 'q'), ('q', 't')]
+        for k in (1, 2, 3):
+            cpairs = [('U', 'L'), ('U', 'g')] if k == 3 else [('mol', 'L'), ('g', 'g'), ('g', 'L'), ('mol', 'mol'), ('mol', 'g')]
+            if tier == 'thorough' and k != 3:
+                cpairs = PAIRS
+            qunit = 'U' if k == 3 else ('mL' if k == 2 else 'g')
+            for given in givens:
+                for pair in (cpairs if 'c' in given else [cpairs[0]]):
+                    for tunit in (('mL', 'g', 'mol') if 't' in given else ('-',)):
+                        if tier != 'thorough' and tunit == 'mol' and pair != cpairs[0]:
+                            continue
+                        out.append(((k,), given, pair, qunit, tunit, 'substance'))
+        # two solutes (bounded: n <= 2 in quick, one 3-solute case in thorough)
+        out.append(((1, 2), ('c', 't'), ('mol', 'L'), 'g', 'mL', 'substance'))
+        out.append(((1, 1), ('q', 't'), ('mol', 'L'), 'g', 'g', 'substance'))
+        out.append(((1, 3), ('c', 't'), ('g', 'L'), 'g', 'mL', 'substance'))
+        if tier == 'thorough':
+            out.append(((1, 2), ('c', 'q'), ('mol', 'L'), 'g', '-', 'substance'))
+            out.append(((1, 2, 1), ('q', 't'), ('mol', 'L'), 'g', 'mL', 'substance'))
+        # a container as solvent
+        out.append(((1,), ('c', 't'), ('mol', 'L'), 'g', 'mL', 'container'))
+        out.append(((1,), ('c', 't'), ('g', 'g'), 'g', 'g', 'container'))
+        out.append(((1,), ('q', 't'), ('mol', 'L'), 'g', 'mL', 'container2'))
+        return out
+
+    def setup(self, I, case, finite=None):
+        kinds, given, (nb, db), qunit, tunit, form = case
+        clib.assume_world(I)
+        n = len(kinds)
+        solutes = [z3.Const(f'solute{i}', Sub) for i in range(n)]
+        solvent = z3.Const('solvent', Sub)
+        other = z3.Const('other', Sub)
+        assume_distinct(I, solutes + [solvent, other])
+        for s, k in zip(solutes, kinds):
+            I.assume(kind(s) == k)
+        I.assume(kind(solvent) == 2)
+        I.assume(kind(other) == 2)
+        Y = None
+        if form.startswith('container'):
+            ykeys = [solvent] + ([other] if form == 'container2' else [])
+            Y = clib.mk_container(I, 'Y', 'inf', ykeys, [True] * len(ykeys))
+            for s in ykeys:
+                I.assume(Y.amt[s] > 0)
+        cs = [z3.Real(f'c{i}') for i in range(n)]
+        qs = [z3.Real(f'q{i}') for i in range(n)]
+        T = z3.Real('T')
+        for v in cs + qs + [T]:
+            I.assume(v > 0)
+        return solutes, solvent, other, Y, cs, qs, T
+
+    def invoke(self, I, st, case):
+        kinds, given, (nb, db), qunit, tunit, form = case
+        solutes, solvent, other, Y, cs, qs, T = st
+        n = len(kinds)
+        kwargs = {}
+        if 'c' in given:
+            vals = [SegStr([NumHole(c), ' ', f'{nb}/{db}']) for c in cs]
+            kwargs['concentration'] = vals[0] if n == 1 else vals
+        if 'q' in given:
+            vals = []
+            for q, k in zip(qs, kinds):
+                u = 'U' if k == 3 else qunit if qunit != 'U' else 'g'
+                vals.append(SegStr([NumHole(q), ' ', u]))
+            kwargs['quantity'] = vals[0] if n == 1 else vals
+        if 't' in given:
+            kwargs['total_quantity'] = SegStr([NumHole(T), ' ', tunit])
+        sol_arg = SubV(solutes[0]) if n == 1 else [SubV(s) for s in solutes]
+        solv_arg = SubV(solvent) if Y is None else Y.obj
+        return vc.call(I, self.FN, [sol_arg, solv_arg, NameV(z3.Const('newname', Name))], kwargs)
+
+    def emit(self, I, out, st, case, finite=None):
+        kinds, given, (nb, db), qunit, tunit, form = case
+        solutes, solvent, other, Y, cs, qs, T = st
+        n = len(kinds)
+        allkeys = solutes + [solvent] + ([other] if form == 'container2' else [])
+        fin = {'keys': allkeys}
+        ms = spec.num(clib.ms_of(I))
+        frame_ob(I)
+        tol = z3.RealVal('1/1000000')
+        if out.kind == 'return':
+            if Y is None:
+                R, resid = out.value, None
+            else:
+                resid, R = out.value
+            I.oblige('fresh', bool(R.fresh), 'property')
+            cont = R.fields['contents']
+            keys_ok = isinstance(cont, dict) and {str(k.term) for k in cont} == {str(s) for s in allkeys}
+            I.oblige('ensures[only-named]', bool(keys_ok), 'property',
+                     note=f"contents keys {[str(k.term) for k in cont] if isinstance(cont, dict) else cont}")
+            amt = {s: amt_of(R, s)[0] for s in allkeys}
+            I.oblige('ensures[positive]', z3.And(*[amt[s] > 0 for s in solutes + [solvent]]), 'property',
+                     note='every named solute and the solvent are present in positive amounts')
+            if 'c' in given:
+                for i, s in enumerate(solutes):
+                    n1, d1 = conc_of(I, amt, allkeys, s, nb, db)
+                    I.oblige(f'ensures[conc/{i}]', z3.And(n1 <= cs[i] * d1 * (1 + tol), n1 >= cs[i] * d1 * (1 - tol)),
+                             'property', note=f'concentration of solute {i} in {nb}/{db}')
+            if 'q' in given:
+                for i, (s, k) in enumerate(zip(solutes, kinds)):
+                    u = 'U' if k == 3 else qunit if qunit != 'U' else 'g'
+                    p, b = spec.split_unit(u)
+                    S_ = spec.SubSpec(k, mw(s), dens(s), sa(s))
+                    have = amt[s] * (1 if k == 3 else ms) * spec.num(spec.factor(S_, 'U' if k == 3 else 'mol', b))
+                    want = qs[i] * spec.num(spec.SI[p])
+                    slack = tol * want + (z3.RealVal('1/1000000') if (n > 1 and given == ('c', 'q')) else 0)
+                    I.oblige(f'ensures[qty/{i}]', z3.And(have <= want + slack, have >= want - slack), 'property',
+                             note=f'quantity of solute {i} in {u}')
+            if 't' in given:
+                p, b = spec.split_unit(tunit)
+                tot = clib.finite_measure(I, BASE_WS[b], allkeys, amt)
+                want = T * spec.num(spec.SI[p])
+                I.oblige('ensures[total]', z3.And(tot <= want * (1 + tol), tot >= want * (1 - tol)), 'property',
+                         note=f'total {b} of the solution')
+            for name, g in wf_clauses(I, R, fin, None).items():
+                I.oblige(name, g, 'property')
+            if Y is not None:
+                ykeys = list(Y.amt)
+                ramt = {s: amt_of(resid, s)[0] for s in allkeys}
+                # the solvent portion is a uniform aliquot of the solvent container and nothing is lost
+                I.oblige('ensures[nothing-lost]', z3.And(*[ramt[s] + amt[s] == Y.amt.get(s, z3.RealVal(0)) for s in ykeys]),
+                         'property', note='residual solvent container + solution = solvent container (per substance)')
+                I.oblige('ensures[aliquot]', z3.And(*[ramt[a] * Y.amt[b] == ramt[b] * Y.amt[a]
+                                                      for a, b in itertools.combinations(ykeys, 2)],
+                                                    *[z3.And(ramt[a] >= 0, ramt[a] <= Y.amt[a]) for a in ykeys]), 'property',
+                         note='the depleted container is a uniform remainder')
+        else:
+            ex = out.exc
+            if exc_is(ex.cls, 'ValueError') and (not ex.implicit or ex.cls == 'LinAlgError'):
+                I.oblige('raises[refuse]', True, 'aux')
+            else:
+                I.oblige(f'safe[{ex.cls}]', False, 'property', note=f'{ex.cls} at line {ex.lineno}')
+
+    def inputs(self, I, st, case, fin):
+        solutes, solvent, other, Y, cs, qs, T = st
+        d = {'T': T}
+        for i, (c, q) in enumerate(zip(cs, qs)):
+            d[f'c{i}'] = c
+            d[f'q{i}'] = q
+        d.update(clib.sub_inputs(solutes + [solvent, other]))
+        if Y is not None:
+            for s in Y.amt:
+                d[f'Y_{s}'] = Y.amt[s]
+        return d
+
+    def prefs(self, I, st, case, fin):
+        solutes, solvent, other, Y, cs, qs, T = st
+        return clib.nice_model_prefs(solutes + [solvent, other], ([Y.amt[s] for s in Y.amt] if Y is not None else []),
+                                     cs + qs + [T])
+
+    def replay(self, mv, st, case, fin, clause):
+        kinds, given, (nb, db), qunit, tunit, form = case
+        solutes, solvent, other, Y, cs, qs, T = st
+        try:
+            inputs = {'subs': clib.model_subs(mv, solutes + [solvent, other]), 'n': len(kinds), 'kinds': list(kinds),
+                      'given': list(given), 'cunit': f'{nb}/{db}', 'qunit': qunit, 'tunit': tunit,
+                      'c': [str(mv[f'c{i}']) for i in range(len(kinds))], 'q': [str(mv[f'q{i}']) for i in range(len(kinds))],
+                      'T': str(mv['T']), 'Y': None if Y is None else {'contents': {str(s): str(mv[f'Y_{s}']) for s in Y.amt}, 'cap': None},
+                      'clause': clause}
+        except (KeyError, TypeError, ValueError):
+            return []
+        code = (clib.REPLAY_HEAD.replace('{inputs!r}', repr(json.dumps(inputs))) + clib.MK_CONTAINERS +
+                "def run():\n"
+                "    subs = {k: mk_sub(d, 'sub_' + k) for k, d in J['subs'].items()}\n"
+                "    from contracts.solution_oracle import judge_create_solution\n"
+                "    return judge_create_solution(J, subs, mk_container)\n")
+        return [{'inputs': inputs, 'code': code}]
+
+    def must_accept(self, case):
+        return []
+
+
+OPS['create_solution'] = CreateSolutionOp()
